@@ -13,7 +13,7 @@ def _ref_used_rand(env):
     return env["is_rand"] and ((env["declared"] and env["rand_mode"]) or env["level0"])
 
 
-@rule("RN1", ["C03", "C08", "C17"], "used-as-random = is_rand and ((declared and rand_mode) or level==0), propagated down; call-site discipline",
+@rule("RN1", ["C03", "C08", "C17", "C09"], "used-as-random = is_rand and ((declared and rand_mode) or level==0), propagated down; call-site discipline",
       engine="PE", floor=8)
 def rn1(prog, rr):
     for cn in ("FieldScalarModel", "FieldCompositeModel"):
@@ -96,6 +96,9 @@ def rn1(prog, rr):
                     continue            # locking a field after it has been solved / drawn
                 if fn is dr and isinstance(a0, ast.Constant) and a0.value is True and isinstance(lvl, ast.Constant) and lvl.value == 0:
                     continue            # the root call
+                if a0 is not None and norm(a0) == "self.is_used_rand" and isinstance(lvl, ast.Constant) and isinstance(lvl.value, int) and lvl.value >= 1:
+                    continue            # propagation from a container to a child it creates: the child is random only if the container is used-random
+                                        # AND the child is declared random with rand_mode on (level >= 1 switches the root clause off)
                 rr.finding(fn, n, _q(fn), "RN1: %s forces used-as-random with %s outside the root call of do_randomize: the field is treated as "
                            "random regardless of the randomness of the objects enclosing it" % (norm(n), "level 0" if lvl is None or
                                                                                               (isinstance(lvl, ast.Constant) and lvl.value == 0) else norm(lvl)))
@@ -139,7 +142,7 @@ def fault_seeds(prog):
 PHASES = ["used_rand", "pre", "bounds1", "rewrite", "bounds2", "randinfo", "solve", "rollback", "post"]
 
 
-@rule("RN2", ["C03", "C16", "C17", "C02", "C04", "C01", "C08", "C09", "C14", "C15", "C06"], "phase order of do_randomize as dominance facts; rollback in finally on every exit; overrides never outlive a call",
+@rule("RN2", ["C03", "C16", "C17", "C02", "C04", "C01", "C08", "C09", "C14", "C15", "C06", "C07"], "phase order of do_randomize as dominance facts; rollback in finally on every exit; overrides never outlive a call",
       engine="SAI+CG", floor=5)
 def rn2(prog, rr):
     dr = prog.method("Randomizer", "do_randomize")
